@@ -163,6 +163,12 @@ class CFG:
             fp = [] if is_const_true(st.test) else [(t.id, 'F')]
             after = g.seq(st.orelse, fp, ctx, copy) if st.orelse else fp
             return after + lp.breaks
+        if isinstance(st, ast.For) and isinstance(st.target, ast.Name) and st.target.id == '__once':
+            # one-trip loop produced by the helper inliner (early returns of the helper became `break`): the body runs exactly once
+            j = g.new('join', None, st, copy); g.connect(preds, j)
+            lp = _Loop(g, ctx, j)
+            outs = g.seq(st.body, [(j.id, None)], lp, copy)
+            return outs + lp.breaks
         if isinstance(st, (ast.For, ast.AsyncFor)):
             it = g.new('iter', st, st, copy); g.connect(preds, it)
             ctx.on_exc([(it.id, 'exc')], copy)
@@ -282,11 +288,12 @@ class CFG:
         if len(items) > limit: items = items[:limit // 2] + ['...'] + items[-limit // 2:]
         return ' -> '.join(items)
 
-    def forward(self, init, transfer, max_iter=200000):
+    def forward(self, init, transfer, max_iter=200000, start=None):
         """powerset forward dataflow.  state = frozenset of facts.
         transfer(node, state, label) -> state flowing along an out-edge with that label (or None = edge infeasible)"""
-        IN = {self.entry.id: frozenset(init)}
-        work = [self.entry.id]; it = 0
+        s0 = self.entry.id if start is None else (start.id if isinstance(start, N) else start)
+        IN = {s0: frozenset(init)}
+        work = [s0]; it = 0
         while work:
             it += 1
             if it > max_iter: raise AnalysisError('dataflow did not converge in %s' % self.name)
